@@ -325,3 +325,47 @@ Lemma cleanjoin_example :
   clean_join "/plugins/./cache/" "bin\.\x//y" = inr "/plugins/cache/bin/x/y" /\
   clean_join "/plugins" "a/../b" = inl CJDotDot /\ clean_join "/plugins" "c:x" = inl CJColon.
 Proof. repeat split; vm_compute; reflexivity. Qed.
+
+(* ---------- DownloadTo's file name ---------- *)
+Local Open Scope string_scope.
+
+Lemma last_in {A} (l : list A) d : l <> [] -> In (last l d) l.
+Proof.
+  induction l as [|x l IH]; [congruence|]. intros _. destruct l as [|y l]; [now left|].
+  right. apply IH. discriminate.
+Qed.
+
+Lemma path_base_noslash s : path_base s = "/" \/ contains_char slash (path_base s) = false.
+Proof.
+  unfold path_base. destruct s as [|a s']; [now right|].
+  destruct (strip_trailing slash (String a s')) as [|b t] eqn:E; [now left|]. right.
+  pose proof (split_on_pieces slash (String b t)) as HP. rewrite Forall_forall in HP.
+  apply HP. apply last_in. apply split_on_nonempty.
+Qed.
+
+Lemma download_confined upath name d :
+  download_name upath = Some name -> d <> "" ->
+  name <> "." /\ name <> ".." /\ contains_char slash name = false /\
+  clean_comps (d ++ "/" ++ name) = (clean_comps d ++ (if String.eqb name "" then [] else [name]))%list.
+Proof.
+  unfold download_name. intros H Hd.
+  destruct (String.eqb (path_base upath) ".") eqn:E1; [discriminate|].
+  destruct (String.eqb (path_base upath) "..") eqn:E2; [discriminate|].
+  destruct (String.eqb (path_base upath) "/") eqn:E3; [discriminate|].
+  simpl in H. inversion H; subst name. clear H.
+  apply String.eqb_neq in E1, E2, E3.
+  destruct (path_base_noslash upath) as [|Hns]; [congruence|].
+  repeat split; auto.
+  unfold clean_comps. rewrite is_abs_app by assumption.
+  change (d ++ "/" ++ path_base upath) with (d ++ String slash (path_base upath)).
+  rewrite split_on_concat, clean_go_app, (split_on_nosep _ _ Hns).
+  cbn [clean_go]. apply String.eqb_neq in E1, E2.
+  destruct (String.eqb (path_base upath) "") eqn:E0; simpl.
+  - now rewrite rev_involutive, app_nil_r.
+  - rewrite E1, E2. simpl. now rewrite rev_involutive.
+Qed.
+
+Lemma download_examples :
+  download_name "/charts/x-1.0.0.tgz" = Some "x-1.0.0.tgz" /\ download_name "/charts/../../x.tgz" = Some "x.tgz" /\
+  download_name "/charts/.." = None /\ download_name "/" = None /\ download_name "/charts/." = None.
+Proof. repeat split; vm_compute; reflexivity. Qed.
